@@ -2,6 +2,7 @@ package loader
 
 import (
 	"github.com/compose-spec/compose-go/v2/tree"
+	"github.com/compose-spec/compose-go/v2/types"
 	"gopkg.in/yaml.v3"
 )
 
@@ -43,4 +44,44 @@ func VerifC01AliasCycle() {
 		vrtCover("acyclic")
 		vrtAssert("alias-dag-accepted", err == nil)
 	}
+}
+
+// VerifC01Tags: `!reset` / `!override` wherever YAML allows a tag - on the document root, on a section, on a
+// service, on scalars, sequences and mappings, in the only file or in an override - give a project or an error.
+func VerifC01Tags() {
+	w := vrtRoot() + "/w"
+	tag := []string{"!reset", "!override"}[vrtChoice("tag", 2)]
+	where := vrtChoice("where", 7)
+	svc := nMap(nStr("image"), nStr("i"), nStr("command"), nSeq(nStr("x")), nStr("labels"), nMap(nStr("k"), nStr("v")))
+	services := nMap(nStr("s"), svc)
+	volumes := nMap(nStr("v"), nMap())
+	root := nMap(nStr("services"), services, nStr("volumes"), volumes)
+	switch where {
+	case 0:
+		root.Tag = tag
+	case 1:
+		services.Tag = tag
+	case 2:
+		svc.Tag = tag
+	case 3:
+		svc.Content[1].Tag = tag // a scalar
+	case 4:
+		svc.Content[3].Tag = tag // a sequence
+	case 5:
+		svc.Content[5].Tag = tag // a mapping
+	case 6:
+		volumes.Tag = tag
+	}
+	asOverride := vrtChoice("asOverride", 2) == 1
+	var m map[string]any
+	var err error
+	if asOverride {
+		vrtYamlFile(w+"/compose.yaml", map[string]any{"services": map[string]any{"s": map[string]any{"image": "base", "command": []any{"b"}}}, "volumes": map[string]any{"v": nil}})
+		vrtYamlNodeFile(w+"/override.yaml", root)
+		m, err = tcLoadFiles(types.Mapping{}, w+"/compose.yaml", w+"/override.yaml")
+	} else {
+		vrtYamlNodeFile(w+"/compose.yaml", root)
+		m, err = tcLoadFiles(types.Mapping{}, w+"/compose.yaml")
+	}
+	c01Outcome(m, err)
 }
